@@ -382,14 +382,28 @@ def gen_case(src):
         tb.bound.add(nf(key))     # entry names of bound lists of contexts are known to the parsing scope
         (t1, n1) = tb.name(tb.pick())
         vals = [src.int(1, 120) for _ in range(4)]
-        extra_bind.append([nf(lname), {"l": [{"c": [[nf(key), {"n": str(v)}], ["idx9", {"n": str(i)}]]} for i, v in enumerate(vals)]}])
-        op = src.choice([">", "<", ">=", "<="])
-        text = "%s[%s %s %s].idx9" % (spell(src, lname), spell(src, key), op, t1)
+        wire_items = [{"c": [[nf(key), {"n": str(v)}], ["idx9", {"n": str(i)}]]} for i, v in enumerate(vals)]
         items = ["list", [["ctx", [[nf(key), ["num", str(v)]], ["idx9", ["num", str(i)]]]] for i, v in enumerate(vals)]]
-        node = ["path", ["filter", items, ["cmp", op, ["name", nf(key)], n1]], "idx9"]
+        if src.bool(0.4):
+            # the items need not have the same entries: the first one lacks the entry the predicate names (it is never selected)
+            wire_items.insert(0, {"c": [["idx9", {"n": "-1"}]]})
+            items[1].insert(0, ["ctx", [["idx9", ["num", "-1"]]]])
+            tb.labels.append("first-item-lacks-the-entry")
+        extra_bind.append([nf(lname), {"l": wire_items}])
+        op = src.choice([">", "<", ">=", "<="])
+        # the entry name is followed by a comparison, or first by an operator a name could go on with (then by a number, never a name part)
+        ar = src.weighted([(5, None), (2, "-"), (2, "*"), (1, "+")])
+        sp = src.choice(["", " "])
+        left_text = spell(src, key) if ar is None else "%s%s%s%s2" % (spell(src, key), sp, ar, sp)
+        left_node = ["name", nf(key)] if ar is None else ["arith", ar, ["name", nf(key)], ["num", "2"]]
+        text = "%s[%s %s %s].idx9" % (spell(src, lname), left_text, op, t1)
+        node = ["path", ["filter", items, ["cmp", op, left_node, n1]], "idx9"]
         tb.labels.append("filter-predicate-entry-name")
+        if ar is not None:
+            tb.labels.append("entry-name-before-operator")
         thr = values[n1[1]]
-        hits = sum(1 for v in vals if {">": v > thr, "<": v < thr, ">=": v >= thr, "<=": v <= thr}[op])
+        fv = {None: lambda v: v, "-": lambda v: v - 2, "*": lambda v: v * 2, "+": lambda v: v + 2}[ar]
+        hits = sum(1 for v in vals if {">": fv(v) > thr, "<": fv(v) < thr, ">=": fv(v) >= thr, "<=": fv(v) <= thr}[op])
         if hits == 1:
             tb.labels.append("single-hit(eager unwrap, C01 finding)")
             tb.partial = True
